@@ -432,6 +432,7 @@ class RealMem:
 
     def _hook(self):
         m, outs = self.mem, self.outs
+        self._hooked_on = m.mem_read_cb
         m.mem_read_cb.add_callback(lambda mem, addr, data: outs.append('RO:%d:%d:%d:%s' % (mem.tag, mem.id, addr, hexs(data))))
         m.mem_read_failed_cb.add_callback(lambda mem, addr, data: outs.append('RF:%d:%d:%d:%s' % (mem.tag, mem.id, addr, hexs(data))))
         m.mem_write_cb.add_callback(lambda mem, addr: outs.append('WO:%d:%d:%d' % (mem.tag, mem.id, addr)))
@@ -468,8 +469,13 @@ class RealMem:
 
     def disc(self):
         def go():
-            self.cf.disconnected.call('sim://0')
-            self._hook()      # _clear_state() replaces the Caller objects: an application re-registers
+            try:
+                self.cf.disconnected.call('sim://0')
+            finally:
+                # _clear_state() replaces the Caller objects: an application re-registers (it does not run when a
+                # subscriber raised inside _call_all_failed_callbacks: then the old subscriptions are still there)
+                if self.mem.mem_read_cb is not self._hooked_on:
+                    self._hook()
         return self._do(go)
 
     def line(self, ws):
@@ -529,6 +535,75 @@ class RealTester(RealMem):
         return RealMem.line(self, ws)
 
 
+class RealDeck(RealMem):
+    """the real `DeckMemoryManager` (+ a `DeckMemory` front end) on top of the real `Memory`, wired as
+    `_handle_cmd_info_details` does (after the observers of this check, so that they see a notification first)"""
+    TAG = 800
+
+    def __init__(self, did):
+        RealMem.__init__(self)
+        memmod, _, _ = _lib()
+        from cflib.crazyflie.mem.deck_memory import DeckMemory
+        self.douts = []
+        self.mgr = memmod.DeckMemoryManager(id=did, type=memmod.MemoryElement.TYPE_DECK_MEMORY, size=1 << 20, mem_handler=self.mem)
+        self.mgr.tag = self.TAG
+        self.dm = DeckMemory(self.mgr, 0x1000)
+        self.dm._bit_field1 = DeckMemory.MASK_IS_VALID | DeckMemory.MASK_IS_STARTED | DeckMemory.MASK_SUPPORTS_READ | DeckMemory.MASK_SUPPORTS_WRITE
+        self._wire()
+
+    def _wire(self):
+        m, g = self.mem, self.mgr
+        m.mem_read_cb.add_callback(g._new_data)
+        m.mem_read_failed_cb.add_callback(g._new_data_failed)
+        m.mem_write_cb.add_callback(g._write_done)
+        m.mem_write_failed_cb.add_callback(g._write_failed)
+
+    def _hook(self):
+        RealMem._hook(self)
+        if hasattr(self, 'mgr'):
+            self._wire()
+
+    def _ddo(self, thunk):
+        del self.douts[:]
+        r = self._do(thunk)
+        return '%s %s' % (r, ';'.join(self.douts) or '-')
+
+    def line(self, ws):
+        D = self.douts
+        if ws[0] == 'dquery':
+            rid, hf = int(ws[2]), ws[3] == '1'
+            return self._ddo(lambda: self.mgr.query_decks(lambda decks: D.append('DQ:%d' % rid),
+                                                          (lambda msg: D.append('DQF:%d' % rid)) if hf else None))
+        if ws[0] == 'dread':
+            base, address, length, rid, hf = int(ws[2]), int(ws[3]), int(ws[4]), int(ws[5]), ws[6] == '1'
+            self.dm._base_address = base
+            return self._ddo(lambda: self.dm.read(address, length, lambda a, d: D.append('DR:%d:%d:%s' % (rid, a, hexs(d))),
+                                                  read_failed_cb=(lambda a: D.append('DRF:%d:%d' % (rid, a))) if hf else None))
+        if ws[0] == 'dwrite':
+            base, address, rid, hf, prog = int(ws[2]), int(ws[3]), int(ws[5]), ws[6] == '1', ws[7] == '1'
+            data = b'' if ws[4] == '-' else bytes.fromhex(ws[4])
+            self.dm._base_address = base
+
+            def pcb(msg, pct):
+                self.outs.append('P:%d:%d' % (self.TAG, pct))
+            return self._ddo(lambda: self.dm.write(address, bytearray(data), lambda a: D.append('DW:%d:%d' % (rid, a)),
+                                                   write_failed_cb=(lambda a: D.append('DWF:%d:%d' % (rid, a))) if hf else None,
+                                                   progress_cb=pcb if prog else None))
+        if ws[0] == 'dpkt':
+            pk = self.CRTPPacket()
+            pk.set_header(4, int(ws[1]))
+            pk.data = b'' if ws[2] == '-' else bytes.fromhex(ws[2])
+            return self._ddo(lambda: self.cf.port_cb(pk))
+        if ws[0] == 'ddisc':
+            del self.douts[:]
+            r = self.disc()
+            return '%s %s' % (r, ';'.join(self.douts) or '-')
+        if ws[0] == 'ddisconnect':
+            self.mgr.disconnect()
+            return 'ok'
+        return RealMem.line(self, ws)
+
+
 def probe_variant():
     """which lock discipline does the real code have? (behavioural probe; cross-checked against Gen by Tie A)
     -> (d9_fixed, d17_fixed)"""
@@ -554,6 +629,10 @@ REQUIRED_THEOREMS = ['CfVerif.C06.' + t for t in (
     'read_reply_progress', 'write_ack_progress', 'd17_never_notified', 'd17_repaired', 'oob_write_raises',
     'gen_constants', 'gen_read_request', 'gen_write_request', 'gen_memory_api', 'gen_handlers', 'gen_disconnect', 'gen_tester',
     'tester_write_pattern', 'next_read_served', 'next_write_served',
+    'gen_deck_variant', 'gen_deck_constants', 'gen_deck_records', 'deck_exactly_one', 'deck_records_follow_memory',
+    'deck_next_request_accepted', 'deck_next_write_accepted', 'deck_query_failure_unreported_counterexample',
+    'deck_write_failure_without_callback_counterexample', 'deck_overlapping_requests_counterexample',
+    'deck_read_record_must_always_be_cleared',
     'd9_lock_left_held', 'd9_wedged')]
 TRUSTED = ['harness/corr/c06.py extractor + correspondence (fake `cf` boundary object: add_port_callback, disconnected, send_packet with the '
            'size check of Crazyflie.send_packet; CheckedLock turns a blocking acquire of a held lock into `hang`; one MemProxy object per '
@@ -798,6 +877,133 @@ def systematic_histories(rng, thorough):
     return hs
 
 
+DECK_MEM_SIZE = 640
+DECK_BASE = 320
+
+
+def deck_device(rng, did, version=3):
+    from harness.sim import crazyflie_device as sim
+    mems = []
+    for i in range(N_MEMS):
+        data = bytearray(rng.randrange(256) for _ in range(DECK_MEM_SIZE))
+        data[0] = version
+        mems.append(sim.Mem(0x19 if i == did else 0, data=bytes(data)))
+    return sim.CrazyflieDevice(mems=mems)
+
+
+def new_deck_history(rng, did, version=3):
+    h = History(rng)
+    h.real = RealDeck(did)
+    h.dev = deck_device(rng, did, version)
+    h.lines.append('dreset %d code' % did)
+    h.replies.append('ok')
+    return h
+
+
+def deck_history(rng, steps):
+    """the DeckMemoryManager client: queries / reads / writes with and without the optional failure callbacks, overlapping
+    requests (refused with an exception), replies in any order with duplicates, error statuses, unsupported info version,
+    Memory-level disconnect and manager.disconnect()"""
+    did = rng.randrange(N_MEMS)
+    h = new_deck_history(rng, did, version=rng.choice([3, 3, 3, 2]))
+    rid = 0
+    for _ in range(steps):
+        x = rng.random()
+        rid += 1
+        if x < 0.10:
+            h.op('dquery %d %d %d' % (RealDeck.TAG, rid, rng.random() < 0.5))
+        elif x < 0.25:
+            n = rng.choice([0, 1, 20, 21, 41])
+            a = rng.randrange(0, 200) if rng.random() < 0.85 else DECK_MEM_SIZE
+            h.op('dread %d %d %d %d %d %d' % (RealDeck.TAG, DECK_BASE, a, n, rid, rng.random() < 0.5))
+        elif x < 0.40:
+            n = rng.choice([0, 1, 25, 26, 51])
+            a = rng.randrange(0, 200) if rng.random() < 0.85 else DECK_MEM_SIZE
+            h.op('dwrite %d %d %d %s %d %d %d' % (RealDeck.TAG, rng.choice([DECK_BASE, DECK_BASE, 0x100]), a,
+                                                 hexs(bytes(rng.randrange(256) for _ in range(n))), rid, rng.random() < 0.5, rng.random() < 0.3))
+        elif x < 0.85 and h.inflight:
+            i = 0 if rng.random() < 0.7 else rng.randrange(len(h.inflight))
+            c, d = h.inflight[i] if rng.random() < 0.2 else h.inflight.pop(i)
+            h.op('dpkt %d %s' % (c, hexs(d)))
+        elif x < 0.91:
+            chan = rng.choice([1, 2])
+            h.op('dpkt %d %s' % (chan, hexs(ack_bytes(did, rng.choice([0, DECK_BASE, DECK_BASE + 5, 0x100]), rng.choice([0, 7, 13])))))
+        elif x < 0.95:
+            del h.inflight[:]
+            h.op('ddisc')
+        elif x < 0.97:
+            h.op('ddisconnect')
+    return h
+
+
+def deck_systematic(rng, thorough):
+    """every kind of deck request x {with, without failure callback} x {success, error status at chunk j, Memory-level
+    disconnect after k deliveries, unsupported info version}, each followed by a further request of the same kind"""
+    hs = []
+    T = RealDeck.TAG
+
+    def pump(h, stop_after=None):
+        k = 0
+        while h.inflight and k < 60:
+            if stop_after is not None and k == stop_after:
+                del h.inflight[:]
+                h.op('ddisc')
+                return
+            c, d = h.inflight.pop(0)
+            h.op('dpkt %d %s' % (c, hexs(d)))
+            k += 1
+    for hf in (0, 1):
+        for version in (3, 2):
+            for mode in ['ok', 'err0', 'err5', 'drop0', 'drop3']:
+                h = new_deck_history(rng, 1, version)
+                if mode.startswith('err'):
+                    h.dev.force_status(4, 1, bytes([1]) + struct.pack('<I', 20 * int(mode[3:])), 7, times=1)
+                h.op('dquery %d 1 %d' % (T, hf))
+                pump(h, int(mode[4:]) if mode.startswith('drop') else None)
+                h.op('dquery %d 2 %d' % (T, hf))
+                pump(h)
+                hs.append(h)
+        for n in ([0, 1, 20, 21, 41, 60] if thorough else [0, 21, 41]):
+            chunks = max(1, -(-n // 20))
+            for mode in ['ok'] + ['err%d' % j for j in range(chunks)] + ['drop%d' % k for k in range(chunks + 1)]:
+                h = new_deck_history(rng, 1)
+                a = 9
+                if mode.startswith('err'):
+                    h.dev.force_status(4, 1, bytes([1]) + struct.pack('<I', DECK_BASE + a + 20 * int(mode[3:])), 7, times=1)
+                h.op('dread %d %d %d %d 1 %d' % (T, DECK_BASE, a, n, hf))
+                pump(h, int(mode[4:]) if mode.startswith('drop') else None)
+                h.op('dread %d %d %d %d 2 %d' % (T, DECK_BASE, a, n, hf))
+                pump(h)
+                hs.append(h)
+        for n in ([0, 1, 25, 26, 51] if thorough else [0, 26, 51]):
+            chunks = max(1, -(-n // 25))
+            data = bytes(rng.randrange(256) for _ in range(n))
+            for mode in ['ok'] + ['err%d' % j for j in range(chunks)] + ['drop%d' % k for k in range(chunks + 1)]:
+                h = new_deck_history(rng, 1)
+                a = 9
+                if mode.startswith('err'):
+                    h.dev.force_status(4, 2, bytes([1]) + struct.pack('<I', DECK_BASE + a + 25 * int(mode[3:])), 13, times=1)
+                h.op('dwrite %d %d %d %s 1 %d %d' % (T, DECK_BASE, a, hexs(data), hf, n % 2))
+                pump(h, int(mode[4:]) if mode.startswith('drop') else None)
+                h.op('dwrite %d %d %d %s 2 %d 0' % (T, DECK_BASE, a, hexs(data), hf))
+                pump(h)
+                hs.append(h)
+    # overlapping requests: a query while a read is pending and vice versa; a second read / write while one is pending
+    for first, second in [('dread %d %d 9 21 1 1' % (T, DECK_BASE), 'dquery %d 2 1' % T), ('dquery %d 1 1' % T, 'dread %d %d 9 21 2 1' % (T, DECK_BASE)),
+                          ('dread %d %d 9 21 1 0' % (T, DECK_BASE), 'dread %d %d 40 5 2 0' % (T, DECK_BASE)),
+                          ('dwrite %d %d 9 0102 1 1 0' % (T, DECK_BASE), 'dwrite %d %d 40 03 2 1 0' % (T, DECK_BASE))]:
+        h = new_deck_history(rng, 1)
+        h.op(first)
+        h.op(second)
+        pump(h)
+        h.op(second)
+        pump(h)
+        h.op(first.replace(' 1 ', ' 3 ', 1) if False else first)
+        pump(h)
+        hs.append(h)
+    return hs
+
+
 def corpus_histories(rng):
     """minimised past witnesses (harness/corpus/c06/*.json): fixed op lines, run first"""
     import glob
@@ -818,7 +1024,11 @@ def classify(reply, counts):
     if len(f) < 3:
         return
     res, outs, lock = f[:3]
-    if len(f) > 3:
+    if len(f) == 4:
+        for o in f[3].split(';'):
+            if o != '-':
+                counts('deck:' + o.split(':')[0])
+    if len(f) > 4:
         for o in f[3].split(';'):
             if o != '-':
                 counts('tester:' + o.split(':')[0])
@@ -840,11 +1050,14 @@ def correspond(ctx):
     hs += corpus_histories(rng)
     ctx.count('histories:corpus', len(hs))
     hs += systematic_histories(rng, thorough)
+    hs += deck_systematic(rng, thorough)
     ctx.count('histories:systematic', len(hs))
     for k in range(20000 if thorough else 220):
         hs.append(rand_history(rng, rng.choice([6, 12, 25, 60])))
     for k in range(4000 if thorough else 60):
         hs.append(tester_history(rng, rng.choice([6, 15, 40])))
+    for k in range(6000 if thorough else 150):
+        hs.append(deck_history(rng, rng.choice([6, 15, 40])))
     lines = [l for h in hs for l in h.lines]
     model = ctx.lean(DRIVER, lines)
     pos = 0
@@ -1271,6 +1484,159 @@ def systematic_search(ctx):
     return False
 
 
+D61_KEY = 'D61-deck-query-failure-not-reported'
+D62_KEY = 'D62-deck-write-failure-without-callback-raises-in-dispatch'
+D63_KEY = 'D63-deck-overlapping-query-and-read-leaves-record'
+D64_KEY = 'D64-memorytester-read-record-left-behind'
+
+
+def client_search(ctx):
+    """Spec twin for the client layers that keep their own pending-request records (DeckMemoryManager / DeckMemory,
+    MemoryTester).  For every kind of request x {with, without the optional failure callback} x {success, error status on
+    chunk j, link drop after k replies}: the request is closed by exactly one callback (or silently when the callback that
+    would report it was not supplied), no exception escapes from Memory's notification dispatch, the notifications of
+    OTHER requests are not lost, and a following request of the same kind is accepted and completes."""
+    rng = ctx.rng
+    T = RealDeck.TAG
+
+    def pump(h, opname, stop_after=None):
+        k, replies = 0, []
+        while h.inflight and k < 80:
+            if stop_after is not None and k == stop_after:
+                del h.inflight[:]
+                replies.append(h.op('ddisc' if opname == 'dpkt' else 'disc'))
+                return replies
+            c, d = h.inflight.pop(0)
+            replies.append(h.op('%s %d %s' % (opname, c, hexs(d))))
+            k += 1
+        return replies
+
+    def cbs(replies):
+        out = []
+        for r in replies:
+            f = r.split(' ')
+            if len(f) > 3 and f[3] != '-':
+                out += f[3].split(';')
+        return out
+
+    def report(key, what, h, **kw):
+        ctx.witness(key, what, {'ops': h.lines[-14:]}, **kw)
+
+    cases = []
+    for hf in (0, 1):
+        for mode in ['ok', 'err0', 'err5', 'drop0', 'drop3']:
+            cases.append(('query', hf, 257, mode))
+        for n in (0, 21, 41):
+            chunks = max(1, -(-n // 20))
+            for mode in ['ok'] + ['err%d' % j for j in range(chunks)] + ['drop%d' % k for k in range(chunks + 1)]:
+                cases.append(('read', hf, n, mode))
+        for n in (0, 26, 51):
+            chunks = max(1, -(-n // 25))
+            for mode in ['ok'] + ['err%d' % j for j in range(chunks)] + ['drop%d' % k for k in range(chunks + 1)]:
+                cases.append(('write', hf, n, mode))
+    for kind, hf, n, mode in cases:
+        h = new_deck_history(rng, 1)
+        a = 9
+        data = bytes(rng.randrange(256) for _ in range(n)) if kind == 'write' else b''
+        if mode.startswith('err'):
+            j = int(mode[3:])
+            if kind == 'query':
+                h.dev.force_status(4, 1, bytes([1]) + struct.pack('<I', 20 * j), 7, times=1)
+            elif kind == 'read':
+                h.dev.force_status(4, 1, bytes([1]) + struct.pack('<I', DECK_BASE + a + 20 * j), 7, times=1)
+            else:
+                h.dev.force_status(4, 2, bytes([1]) + struct.pack('<I', DECK_BASE + a + 25 * j), 13, times=1)
+
+        def issue(rid):
+            if kind == 'query':
+                return h.op('dquery %d %d %d' % (T, rid, hf))
+            if kind == 'read':
+                return h.op('dread %d %d %d %d %d %d' % (T, DECK_BASE, a, n, rid, hf))
+            return h.op('dwrite %d %d %d %s %d %d 0' % (T, DECK_BASE, a, hexs(data), rid, hf))
+        # a write to another memory is pending as well: its notification must not get lost
+        other = h.op('write 77 0 3 0102 0 0')
+        r0 = issue(1)
+        snapshot = bytes(h.dev.mems[1].data)
+        replies = pump(h, 'dpkt', int(mode[4:]) if mode.startswith('drop') else None)
+        got = cbs(replies)
+        failed = mode != 'ok'
+        desc = {'kind': kind, 'failure_callback': bool(hf), 'len': n, 'outcome': mode}
+        done_tag = {'query': 'DQ', 'read': 'DR', 'write': 'DW'}[kind]
+        fail_tag = done_tag + 'F'
+        mine = [g for g in got if g.split(':')[1] == '1']
+        want = [fail_tag] if (failed and hf) else ([] if failed else [done_tag])
+        raised = [r for r in replies if r.startswith('E:')]
+        other_notes = [o for r in replies for o in r.split(' ')[1].split(';') if o.startswith('WO:77') or o.startswith('WF:77')]
+        bad = None
+        if r0.split(' ')[0] != 'N':
+            bad = ('deck-client:not-accepted', 'a deck request on an idle manager was not accepted')
+        elif raised:
+            bad = (D62_KEY if kind == 'write' and not hf and failed else 'deck-client:dispatch-raised',
+                   'an exception escaped from the notification dispatch of Memory (a subscriber raised)')
+        elif [m.split(':')[0] for m in mine] != want:
+            bad = (D61_KEY if kind == 'query' and hf and failed else 'deck-client:exactly-one',
+                   'a deck request was not closed by exactly one callback (expected %s, got %s)' % (want, mine))
+        elif len(other_notes) != 1:
+            bad = ('deck-client:other-request-lost', 'the notification of another pending request got lost')
+        elif kind == 'read' and not failed and mine[0] != 'DR:1:%d:%s' % (a, hexs(snapshot[DECK_BASE + a:DECK_BASE + a + n])):
+            bad = ('deck-client:read-exact', 'deck read callback carries the wrong address or data')
+        if bad is None:
+            del h.dev.forced[:]
+            r1 = issue(2)
+            rep2 = pump(h, 'dpkt')
+            mine2 = [g for g in cbs(rep2) if g.split(':')[1] == '2']
+            if r1.split(' ')[0] != 'N' or [m.split(':')[0] for m in mine2] != [done_tag]:
+                bad = ('deck-client:next-request-served', 'a further deck request after this one is not accepted / not completed')
+        ctx.count('search:client-scenarios')
+        if bad is not None:
+            report(bad[0], bad[1], h, scenario=desc, callbacks=got, first_call=r0)
+            if bad[0].startswith('deck-client'):
+                return True
+    # overlapping requests of different kinds on the manager
+    for first, second, kind2 in [('dread %d %d 9 21 1 1' % (T, DECK_BASE), 'dquery %d 2 1' % T, 'query'),
+                                 ('dquery %d 1 1' % T, 'dread %d %d 9 21 2 1' % (T, DECK_BASE), 'read')]:
+        h = new_deck_history(rng, 1)
+        h.op(first)
+        r = h.op(second)
+        replies = pump(h, 'dpkt')
+        got = cbs(replies)
+        accepted = r.split(' ')[0] == 'N'
+        closed2 = [g for g in got if g.split(':')[1] == '2']
+        follow = h.op(second.replace(' 2 1', ' 3 1'))
+        ctx.count('search:client-scenarios')
+        if accepted and not closed2:
+            report(D63_KEY, 'a deck %s issued while the other kind of read is in progress returns normally but is never sent and never '
+                   'notified; its record stays and every later one raises' % kind2, h, callbacks=got, follow_up=follow)
+        elif not accepted and follow.split(' ')[0] != 'N':
+            report('deck-client:next-request-served', 'after a refused overlapping request a further request is not accepted', h)
+            return True
+    # MemoryTester: its read record (_update_finished_cb) must be free again once the read is over, however it ended
+    for n, mode in [(21, 'ok'), (0, 'ok'), (21, 'err0'), (41, 'err1'), (21, 'drop0'), (21, 'drop1')]:
+        h = History(rng)
+        h.real = RealTester(1)
+        for k in range(MEM_SIZE):
+            h.dev.mems[1].data[k] = k & 0xFF
+        h.lines.append('treset 1')
+        h.replies.append('ok')
+        if mode.startswith('err'):
+            h.dev.force_status(4, 1, bytes([1]) + struct.pack('<I', 4 + 20 * int(mode[3:])), 7, times=1)
+        h.op('tread %d 4 %d 1' % (RealTester.TAG, n))
+        replies = pump(h, 'tpkt', int(mode[4:]) if mode.startswith('drop') else None)
+        del h.dev.forced[:]
+        r = h.op('tread %d 4 21 2' % RealTester.TAG)
+        rep2 = pump(h, 'tpkt')
+        served = 'S1:' in r and any('TU:2' in x for x in rep2)
+        ctx.count('search:client-scenarios')
+        if not served:
+            key = D64_KEY if (n == 0 or mode != 'ok') else 'tester-client:next-request-served'
+            report(key, 'MemoryTester.read_data after a read that %s: the request is silently ignored (the record _update_finished_cb is '
+                   'only cleared inside the loop over received bytes)' % ('returned no bytes' if mode == 'ok' else 'failed'), h,
+                   scenario={'len': n, 'outcome': mode})
+            if key != D64_KEY:
+                return True
+    return False
+
+
 def search(ctx):
     rng = ctx.rng
     d9 = replay_d9(ctx)
@@ -1278,6 +1644,8 @@ def search(ctx):
     if d9 or d17:
         return        # the remaining scenarios presuppose a subsystem that does not wedge
     if systematic_search(ctx):
+        return
+    if client_search(ctx):
         return
     n = 60 if ctx.tier == 'quick' else 12000
     for k in range(n):
